@@ -516,3 +516,16 @@ func (fc *FnCtx) confinedCallMods(con *Contract, f *ssa.Function, c *ssa.CallCom
 		mods[h] = true
 	}
 }
+
+// addrOfVar: the address (allocation reference) of a local variable that lives in memory, and its type.
+func (fc *FnCtx) addrOfVar(name string) (string, types.Type) {
+	for _, r := range fc.varRefs[name] {
+		if !r.addr {
+			continue
+		}
+		if v, ok := fc.vals[r.v]; ok && len(v.C) == 1 {
+			return v.C[0], derefType(r.v.Type())
+		}
+	}
+	return "", nil
+}
